@@ -246,7 +246,14 @@ def dynslot_rule(chk, db):
         uses_slot = any(x.get("k") == "call" and astx.callee(x)[0] == "_dynamic_index" for x in astx.all_exprs(f))
         bulk = [x for x in astx.all_exprs(f) if x.get("k") == "call" and astx.callee(x)[0] in ("transform", "copy", "copy_n", "move", "fill")
                 and any("_extents" in astx.show(a, 40) for a in x["a"])]
-        if f["n"] in ("_dynamic_index", "_dynamic_index_inv") or not (uses_slot or bulk):
+        # element-wise stores `_extents[i] = v[i]` whose subscript is a plain counter (slot i receives value i)
+        plain = [x for x in astx.all_exprs(f) if x.get("k") == "bin" and x["op"] == "=" and astx.strip_casts(x["l"]) is not None
+                 and astx.strip_casts(x["l"]).get("k") == "idx" and "_extents" in astx.show(astx.strip_casts(x["l"])["b"], 30)
+                 and not any(y.get("k") == "call" and astx.callee(y)[0] in ("_dynamic_index", "_dynamic_index_inv")
+                             for y in astx.walk_expr(astx.strip_casts(x["l"])["i"]))
+                 and not any(y.get("k") == "call" and astx.callee(y)[0] in ("_dynamic_index", "_dynamic_index_inv") for y in astx.walk_expr(x["r"]))
+                 and astx.int_value(astx.strip_casts(astx.strip_casts(x["l"])["i"])) is None]
+        if f["n"] in ("_dynamic_index", "_dynamic_index_inv") or not (uses_slot or bulk or plain):
             continue
         construct = astx.sig(f)
         n += 1
@@ -286,6 +293,10 @@ def dynslot_rule(chk, db):
                             if not own_dyn and bad is None:
                                 bad = (x, "`%s` is reached without a test that this type's static_extent is dynamic_extent%s" % (
                                     astx.show(x, 50), " (the test on the path inspects another object's pattern)" if other_dyn else ""))
+                        if any(x is b for b in plain) and not counted and bad is None:
+                            bad = (x, "`%s` stores value i in dynamic slot i; the constructor is also enabled for rank() values, where "
+                                      "value i belongs to extent i and the slot of a dynamic extent is the number of dynamic extents in "
+                                      "front of it" % astx.show(x, 50))
                         if any(x is b for b in bulk) and not counted and bad is None:
                             bad = (x, "`%s` copies as many values as the argument holds into the %s dynamic slots; the constructor is also "
                                       "enabled for rank() values" % (astx.show(x, 60), "rank_dynamic()"))
